@@ -385,6 +385,7 @@ PROPS["C16"] = {
         lane("TestRecursive", "recursive", 0, 0, norapid=True),
         lane("TestKinds", "kinds", 0, 0, norapid=True),
         lane("TestPipeline", "pipeline", 200, 1200, shards=16, must_classes=["service", "entity", "path-parameter", "path-parameter:odd-name", "path-parameter:enum"]),
+        lane("TestListMethods", "listmethods", 300, 3000, shards=8, must_classes=["list-verb:GET", "list-verb:POST", "query-without-response-object", "nested-object", "rule:sorting", "rule:filtering"]),
         lane("TestAttributes", "attributes", 1200, 8000, shards=16, min_frac=0.05, must_classes=["assignment:accepted", "block:method", "block:entity"]),
     ],
 }
